@@ -23,7 +23,29 @@ func (in *Interp) unop(fr *frame, instr *ssa.UnOp, x Value) Value {
 		}
 		p := asPtr(x)
 		in.checkNilPtr(p)
-		return load(p)
+		v := load(p)
+		// *(*string)(unsafe.Pointer(&bytes)) and the reverse: reinterpretation of the header as a copy
+		if sl, ok := v.(Slice); ok {
+			if b, ok := instr.Type().Underlying().(*types.Basic); ok && b.Info()&types.IsString != 0 {
+				bs := make([]*Term, sl.len)
+				for i := 0; i < sl.len; i++ {
+					bs[i] = sl.arr[i].(*Term)
+				}
+				return normStr(bs, 0)
+			}
+		} else if s, ok := v.(Str); ok {
+			if st, ok := instr.Type().Underlying().(*types.Slice); ok {
+				if eb, ok := st.Elem().Underlying().(*types.Basic); ok && eb.Kind() == types.Uint8 {
+					bs := in.strBytes(s)
+					arr := make([]Value, len(bs))
+					for i, b := range bs {
+						arr[i] = b
+					}
+					return Slice{arr: arr, len: len(arr)}
+				}
+			}
+		}
+		return v
 	case token.ARROW:
 		v, ok := in.chanRecv(x.(*Chan), true)
 		if instr.CommaOk {
